@@ -188,8 +188,15 @@ func main() {
 		os.Exit(2)
 	}
 	prop := os.Args[1]
-	if prop == "selftest-determinism" {
+	switch prop {
+	case "selftest-determinism":
 		selftestDeterminism(os.Args[2:])
+		return
+	case "selftest-race":
+		selftestRace()
+		return
+	case "selftest-hooks":
+		selftestHooks()
 		return
 	}
 	tier := os.Getenv("VERIF_TIER")
